@@ -62,7 +62,7 @@ func RunHCase(c HCase) (res stats.Result) {
 	kernels := 0
 	for _, q := range c.H.Queues {
 		for _, cmd := range q.Cmds {
-			if cmd.Kind == "kernel" {
+			if cmd.Kind == "kernel" || cmd.Kind == "kernelp" {
 				kernels++
 			}
 		}
